@@ -345,7 +345,8 @@ Lemma forward_cases st id rq st' rq' status o :
     dr_filter rq' = dr_filter rq /\ dr_idx rq' = dr_idx rq /\ dr_qos rq' = dr_qos rq /\ dr_group rq' = dr_group rq /\
     if skip then
       (exists orc, st' = set_r_oracle st orc) /\ dr_cursor rq' = dr_cursor rq0 /\ dr_read rq' = dr_read rq /\
-      status = (if is_done pos then FilterCaughtup else SkipRequest)
+      status = (if is_done pos && match srcs sel from_log with [] => true | _ => false end
+                then FilterCaughtup else SkipRequest)
     else
       dr_cursor rq' = pos_end pos /\ dr_read rq' = dr_read rq + lenN (srcs sel from_log) /\
       status <> SInflightFull /\ status <> SkipRequest /\
